@@ -31,10 +31,10 @@ func baseRecords() *Schema {
 		st(kROStruct, "Inner", "", fd(N("Point"), "p"), fd(N("Color"), "c"), fd(N("guid"), "g"), fd(Post(N("string")), "tags")),
 		st(kStruct, "Outer", "0x10", fd(N("Inner"), "inner"), fd(Arr(N("Point")), "pts"), fd(Map("string", N("Inner")), "byName"), fd(N("date"), "d")),
 		st(kMessage, "Msg", `"MSG1"`, mfd("1", N("Outer"), "o"), mfd("2", Arr(N("Msg")), "kids"), mfd("3", Map("string", N("Point")), "m"),
-			mfd("4", Post(N("Color")), "cs"), mfd("5", N("string"), "s"), mfd("6", N("Tree"), "t")),
+			mfd("4", Post(N("Color")), "cs"), mfd("5", N("string"), "s"), mfd("6", N("Tree"), "t"), mfd("255", Map("uint16", Arr(N("Point"))), "last")),
 		un("Tree", "300",
 			br("1", kStruct, "Leaf", fd(N("Point"), "p"), fd(N("int32"), "v")),
-			br("2", kMessage, "Node", mfd("1", N("Tree"), "left"), mfd("2", N("Tree"), "right"), mfd("3", N("Msg"), "meta")),
+			br("2", kMessage, "Node", mfd("1", N("Tree"), "left"), mfd("2", N("Tree"), "right"), mfd("3", N("Msg"), "meta"), mfd("255", N("Point"), "last")),
 			br("3", kStruct, "Pair", fd(N("Outer"), "a"), fd(N("Inner"), "b"))),
 		st(kStruct, "Holder", "", fd(N("Tree"), "t"), fd(N("Msg"), "m")),
 		st(kMessage, "Other", "301", mfd("1", N("Holder"), "h"), mfd("2", N("Other"), "next")),
